@@ -144,6 +144,10 @@ def retry_calls():
         ('Memo-Cache', 'repeated call', lambda f: f(1), (2, 1)),
         ('Memo-FanoutCache', 'repeated call', lambda f: f(1), (2, 1)),
         ('Memo-Cache', 'first call', lambda f: f(5), (6, 2)),
+        # read() asks for retry itself; under LRU the look-up refreshes the item and needs the write lock
+        ('FanoutCache-LRU', 'read', lambda c: c.read('k').read(), BIG),
+        ('FanoutCache-LRU', 'getitem', lambda c: c['k'], BIG),
+        ('DjangoCache-LRU', 'read', lambda c: c.read('k').read(), BIG),
     ]
 
 
@@ -365,6 +369,14 @@ def run(tier, seed, rng, known, replay):
             elif cls_name == 'FanoutCache':
                 c = diskcache.FanoutCache(d, shards=2, timeout=0, disk_min_file_size=8)
                 targets = [os.path.join(d, '%03d' % i) for i in range(2)]
+            elif cls_name == 'FanoutCache-LRU':
+                c = diskcache.FanoutCache(d, shards=2, timeout=0, disk_min_file_size=8, eviction_policy='least-recently-used')
+                targets = [os.path.join(d, '%03d' % i) for i in range(2)]
+                c.set('k', BIG)
+            elif cls_name == 'DjangoCache-LRU':
+                c = DjangoCache(d, {'SHARDS': 2, 'DATABASE_TIMEOUT': 0, 'OPTIONS': {'disk_min_file_size': 8, 'eviction_policy': 'least-recently-used'}})
+                targets = [os.path.join(d, '%03d' % i) for i in range(2)]
+                c.set('k', BIG)
             elif cls_name == 'Index':
                 c = diskcache.Index.fromcache(diskcache.Cache(d, timeout=0, disk_min_file_size=8, eviction_policy='none'))
                 targets = [d]
